@@ -98,6 +98,7 @@ def main():
     args = sys.argv[1:]
     run_tests = "--tests" in args
     allchecks = "--all-checks" in args
+    only_checks = sys.argv[sys.argv.index("--checks") + 1].split(",") if "--checks" in sys.argv else None
     only = args[args.index("--only") + 1] if "--only" in args else None
     rows = []
     for name, rel, old, new, expected in MUTANTS:
@@ -130,7 +131,7 @@ def main():
                                    env=dict(os.environ, PYTHONPATH=d, OMP_NUM_THREADS="1"), capture_output=True, text=True)
                 tests = "tests:" + ("pass" if t.returncode == 0 else "FAIL")
             caught, missed = [], []
-            for c in (ALL if allchecks else expected):
+            for c in (only_checks or (ALL if allchecks else expected)):
                 env = dict(os.environ, VERIF_REPO=d, VERIF_EVIDENCE_DIR=os.path.join(d, "ev"), VERIF_REPLAY_DIR=os.path.join(d, "rp"))
                 q = subprocess.run([os.path.join(VERIF, "check"), c, "quick"], env=env, capture_output=True, text=True)
                 (caught if (q.returncode == 1 and "VIOLATION property=%s" % c in q.stdout) else missed).append(c + ("" if q.returncode in (0, 1) else "(rc=%d)" % q.returncode))
